@@ -229,8 +229,9 @@ def execute(case, result):
 
 
 def gen_weak_case(rnd, spec):
+    big = rnd.random() < 0.3  # generations of many children: what is released is collected, and new children move into the old addresses
     return {"weak": True, "sizes": rnd.choice([[1], [2], [1, 3], [0.5, 4]]),
-            "requests": [rnd.choice([0, 1, 2, 3, 5, 8, 3, 3]) for _ in range(rnd.randint(3, 10))], "collect": rnd.random() < 0.5}
+            "requests": [rnd.choice([0, 1, 2, 3, 5, 8, 3, 3] + ([40, 80, 2, 0] if big else [])) for _ in range(rnd.randint(3, 10))], "collect": rnd.random() < 0.5}
 
 
 def execute_weak(case, result):
@@ -267,7 +268,7 @@ def execute_weak(case, result):
             if case["collect"]:
                 gc.collect()
             observations.append((k, [r() is not None for r in refs], list(last_demand), len(refs), pool.demand,
-                                 sum(c.peek()["demand"] for c in pool._hatchery)))
+                                 sum(c.peek()["demand"] for c in pool._hatchery), [c.peek()["demand"] for c in pool._hatchery]))
         return run
 
     script = []
@@ -277,7 +278,7 @@ def execute_weak(case, result):
     if out.errors:
         return [("run() raised %r" % (out.errors[0][1],), None)]
     problems = []
-    for k, alive, demands, made, request, active in observations:
+    for k, alive, demands, made, request, active, each in observations:
         result.count("adjustments_with_children_only_the_pool_holds")
         gone = [i for i, a in enumerate(alive) if not a and demands[i] != 0]
         if gone:
@@ -288,6 +289,16 @@ def execute_weak(case, result):
             problems.append(("cycle %d (requests %s): after the adjustment the active children's demand %r does not cover the request %r"
                              % (k, case["requests"], active, request), None))
             break
+        if any(d <= 0 for d in each):
+            problems.append(("cycle %d (requests %s): %d active children have no demand left and were not released" % (k, case["requests"], sum(1 for d in each if d <= 0)), None))
+            break
+        if k > 0 and request < case["requests"][k - 1] and any(0 < d <= active - request for d in each):
+            # every child delivers what is asked of it, so after a lowered request any child whose demand fits into the excess could go
+            problems.append(("cycle %d (requests %s): active demand %r for a request of %r: %d children could still be released"
+                             % (k, case["requests"], active, request, sum(1 for d in each if 0 < d <= active - request)), None))
+            break
+        if len(each) >= 30:
+            result.count("adjustments_with_30_or_more_children_only_the_pool_holds")
     return problems
 
 
@@ -329,6 +340,6 @@ def run_shard(spec):
 
 def finish(total, tier):
     for name in ("adjustments_checked", "adjustments_grew", "adjustments_released_demand", "adjustments_shrink_branch",
-                 "aggregations_checked", "exhaustive_histories", "adjustments_with_initial_children_without_demand", "pools_built_from_children_whose_supply_differs_from_their_demand", "cases_with_a_second_factory_pool", "adjustments_with_children_only_the_pool_holds"):
+                 "aggregations_checked", "exhaustive_histories", "adjustments_with_initial_children_without_demand", "pools_built_from_children_whose_supply_differs_from_their_demand", "cases_with_a_second_factory_pool", "adjustments_with_children_only_the_pool_holds", "adjustments_with_30_or_more_children_only_the_pool_holds"):
         if not total.counters.get(name) and not total.violations:
             total.inconc("monitor never observed: " + name)
